@@ -65,6 +65,28 @@ func c09preload(a, m *dnode) {
 	m.recv(msgs...)
 }
 
+// c09bigPreload: peer 2 owns 11 subscriptions (9 of session s3) and 5 sessions: bulk removals then touch many entries.
+func c09bigPreload(nodes ...*dnode) {
+	b := newDNode("B", 2, 0)
+	var msgs [][]byte
+	for i := 0; i < 5; i++ {
+		id := fmt.Sprintf("s3%c", 'a'+i)
+		if i == 0 {
+			id = "s3"
+		}
+		msgs = append(msgs, b.do(func() { b.st.SessionMetadatas().Create(id, "c"+id, 1, nil, "m") })...)
+	}
+	for i := 0; i < 9; i++ {
+		f := fmt.Sprintf("m/big/%d", i)
+		msgs = append(msgs, b.do(func() { b.st.Subscriptions().Create("s3", []byte(f), 0) })...)
+	}
+	msgs = append(msgs, b.do(func() { b.st.Subscriptions().Create("s3a", []byte("m/a"), 1) })...)
+	msgs = append(msgs, b.do(func() { b.st.Subscriptions().Create("s3b", []byte("m/+"), 1) })...)
+	for _, n := range nodes {
+		n.recv(msgs...)
+	}
+}
+
 func TestC09Broadcasts(t *testing.T) {
 	depth := vk.Pick(4, 5)
 	ops := c09alphabet()
@@ -74,8 +96,13 @@ func TestC09Broadcasts(t *testing.T) {
 		states := vk.NewSet()
 		nontriv := vk.NewSet()
 		var seqs, steps, bulkMany int64
-		for _, preload := range []bool{false, true} {
-			complete := SeqsShard(len(ops), depth, sh, deadline, func(seq []int) {
+		for pm, preload := range []bool{false, true, true} {
+			big := pm == 2
+			d := depth
+			if big {
+				d = depth - 2 // the large preload is explored two operations shallower
+			}
+			complete := SeqsShard(len(ops), d, sh, deadline, func(seq []int) {
 				seqs++
 				dResetClock()
 				a := newDNode("A", 1, 0)
@@ -84,7 +111,9 @@ func TestC09Broadcasts(t *testing.T) {
 				// pending while later operations queue theirs (a queued broadcast must not cancel another)
 				a2 := newDNode("A", 1, 0)
 				m2 := newDNode("M2", 4, 0)
-				if preload {
+				if big {
+					c09bigPreload(a, m, a2, m2)
+				} else if preload {
 					c09preload(a, m)
 					c09preload(a2, m2)
 				}
